@@ -416,28 +416,56 @@ def attribute(leaves, failing_idx):
     still unexplained failures.  Deterministic for a given exported set."""
     total = Counter()
     for st in leaves:
-        for nm, val in zip(st["names"], st["fields"]):
-            total[(nm, val)] += 1
-    failing = Counter()
+        for fv in zip(st["names"], st["fields"]):
+            total[fv] += 1
+    where = defaultdict(set)          # (field, value) -> failing strings that contain it
     for i in failing_idx:
-        st = leaves[i]
-        for nm, val in zip(st["names"], st["fields"]):
-            failing[(nm, val)] += 1
-    always = [fv for fv, c in failing.items() if c == total[fv]]
+        for fv in zip(leaves[i]["names"], leaves[i]["fields"]):
+            where[fv].add(i)
+    always = sorted(fv for fv, idx in where.items() if len(idx) == total[fv])
     remaining = set(failing_idx)
     groups = OrderedDict()
     while remaining and always:
-        best, cover = None, []
-        for fv in sorted(always):
-            cov = [i for i in remaining
-                   if fv in zip(leaves[i]["names"], leaves[i]["fields"])]
+        best, cover = None, set()
+        for fv in always:
+            cov = where[fv] & remaining
             if len(cov) > len(cover):
                 best, cover = fv, cov
         if not cover:
             break
         groups["%s=%s" % best] = sorted(cover)
-        remaining -= set(cover)
+        remaining -= cover
         always.remove(best)
+    if remaining:
+        # interactions: pairs of (field = value) under which every generated string fails
+        from itertools import combinations
+        pwhere = defaultdict(set)
+        for i in remaining:
+            for pr in combinations(zip(leaves[i]["names"], leaves[i]["fields"]), 2):
+                pwhere[pr].add(i)
+        ptotal = Counter()
+        for st in leaves:
+            for pr in combinations(zip(st["names"], st["fields"]), 2):
+                if pr in pwhere:
+                    ptotal[pr] += 1
+        fail_all = set(failing_idx)
+        pfail = Counter()
+        for i in fail_all:
+            for pr in combinations(zip(leaves[i]["names"], leaves[i]["fields"]), 2):
+                if pr in pwhere:
+                    pfail[pr] += 1
+        palways = sorted(pr for pr in pwhere if pfail[pr] == ptotal[pr])
+        while remaining and palways:
+            best, cover = None, set()
+            for pr in palways:
+                cov = pwhere[pr] & remaining
+                if len(cov) > len(cover):
+                    best, cover = pr, cov
+            if not cover:
+                break
+            groups["%s=%s,%s=%s" % (best[0] + best[1])] = sorted(cover)
+            remaining -= cover
+            palways.remove(best)
     for i in sorted(remaining):
         groups.setdefault("text=" + leaves[i]["text"], []).append(i)
     return groups
